@@ -448,6 +448,79 @@ Proof.
     cbn [fst snd]. unfold wrapu. rewrite Z.mod_small by lia. rewrite Ha, Hb'. nia.
 Qed.
 
+
+(* ---------- the three Rust types by name ---------- *)
+Definition vec_payload (x : vec_znx) : Z := vn x * vcols x * vsize x * 8.
+Definition scalar_payload (x : scalar_znx) : Z := sn x * scols x * 8.
+Definition mat_payload (x : mat_znx) : Z := mrows x * mcols_in x * mn x * mcols_out x * msize x * 8.
+
+Lemma vec_payload_eq (x : vec_znx) : wf_flat (flat_of_vec x) -> payload_len (flat_of_vec x) = vec_payload x.
+Proof.
+  intros H. destruct (wf_payload _ H) as (-> & _). unfold vec_payload, flat_of_vec. cbn [fk fh factors lprod fold_right].
+  unfold hd_; cbn [nth]. ring.
+Qed.
+Lemma scalar_payload_eq (x : scalar_znx) : wf_flat (flat_of_scalar x) -> payload_len (flat_of_scalar x) = scalar_payload x.
+Proof.
+  intros H. destruct (wf_payload _ H) as (-> & _). unfold scalar_payload, flat_of_scalar. cbn [fk fh factors lprod fold_right].
+  unfold hd_; cbn [nth]. ring.
+Qed.
+Lemma mat_payload_eq (x : mat_znx) : wf_flat (flat_of_mat x) -> payload_len (flat_of_mat x) = mat_payload x.
+Proof.
+  intros H. destruct (wf_payload _ H) as (-> & _). unfold mat_payload, flat_of_mat. cbn [fk fh factors lprod fold_right].
+  unfold hd_; cbn [nth]. ring.
+Qed.
+
+Lemma read_vec_znx_roundtrip (dbg partial : bool) (r x : vec_znx) (tl : bytes) :
+  wf_flat (flat_of_vec x) -> vec_payload x <= blen (vdata r) ->
+  read_vec_znx dbg partial r (write_vec_znx x ++ tl) =
+    (Ok, {| vn := vn x; vcols := vcols x; vsize := vsize x; vmax_size := vmax_size x;
+            vdata := firstn (Z.to_nat (vec_payload x)) (vdata x) ++ skipn (Z.to_nat (vec_payload x)) (vdata r) |}, tl).
+Proof.
+  intros Hwf Hcap. pose proof (vec_payload_eq x Hwf) as Hp.
+  unfold read_vec_znx, lift_read, write_vec_znx.
+  rewrite read_flat_roundtrip; [|exact Hwf|reflexivity|rewrite Hp; exact Hcap].
+  unfold loaded, vec_of_flat, active. rewrite Hp. reflexivity.
+Qed.
+
+Lemma read_scalar_znx_roundtrip (dbg partial : bool) (r x : scalar_znx) (tl : bytes) :
+  wf_flat (flat_of_scalar x) -> scalar_payload x <= blen (sdata r) ->
+  read_scalar_znx dbg partial r (write_scalar_znx x ++ tl) =
+    (Ok, {| sn := sn x; scols := scols x;
+            sdata := firstn (Z.to_nat (scalar_payload x)) (sdata x) ++ skipn (Z.to_nat (scalar_payload x)) (sdata r) |}, tl).
+Proof.
+  intros Hwf Hcap. pose proof (scalar_payload_eq x Hwf) as Hp.
+  unfold read_scalar_znx, lift_read, write_scalar_znx.
+  rewrite read_flat_roundtrip; [|exact Hwf|reflexivity|rewrite Hp; exact Hcap].
+  unfold loaded, scalar_of_flat, active. rewrite Hp. reflexivity.
+Qed.
+
+Lemma read_mat_znx_roundtrip (dbg partial : bool) (r x : mat_znx) (tl : bytes) :
+  wf_flat (flat_of_mat x) -> mat_payload x <= blen (mdata r) ->
+  read_mat_znx dbg partial r (write_mat_znx x ++ tl) =
+    (Ok, {| mn := mn x; msize := msize x; mrows := mrows x; mcols_in := mcols_in x; mcols_out := mcols_out x;
+            mdata := firstn (Z.to_nat (mat_payload x)) (mdata x) ++ skipn (Z.to_nat (mat_payload x)) (mdata r) |}, tl).
+Proof.
+  intros Hwf Hcap. pose proof (mat_payload_eq x Hwf) as Hp.
+  unfold read_mat_znx, lift_read, write_mat_znx.
+  rewrite read_flat_roundtrip; [|exact Hwf|reflexivity|rewrite Hp; exact Hcap].
+  unfold loaded, mat_of_flat, active. rewrite Hp. reflexivity.
+Qed.
+
+(* the repaired VecZnx reader: everything equal, max_size = min(max_size, capacity in limbs) *)
+Lemma read_vec_znx_fixed_roundtrip (dbg partial : bool) (r x : vec_znx) (tl : bytes) :
+  wf_flat (flat_of_vec x) -> vec_payload x <= blen (vdata r) -> vsize x <= vmax_size x ->
+  read_vec_znx_fixed dbg partial r (write_vec_znx x ++ tl) =
+    (Ok, {| vn := vn x; vcols := vcols x; vsize := vsize x;
+            vmax_size := Z.min (vmax_size x)
+                           (if vn x * vcols x * 8 =? 0 then vmax_size x else blen (vdata r) / (vn x * vcols x * 8));
+            vdata := firstn (Z.to_nat (vec_payload x)) (vdata x) ++ skipn (Z.to_nat (vec_payload x)) (vdata r) |}, tl).
+Proof.
+  intros Hwf Hcap Hsz. pose proof (vec_payload_eq x Hwf) as Hp.
+  unfold read_vec_znx_fixed, lift_read, write_vec_znx.
+  rewrite read_flat_fixed_roundtrip; [|exact Hwf|reflexivity|rewrite Hp; exact Hcap|intros _; exact Hsz].
+  unfold loaded, vec_of_flat, active. rewrite Hp. reflexivity.
+Qed.
+
 (* ---------- refutations for the code as it is ---------- *)
 Definition w_recv : flat := {| fk := KVec; fh := [1; 1; 1; 1]; fd := repeat 0 64%nat |}.
 (* n = 2^61, cols = size = max_size = 1, len = 0:  2^61 * 1 * 1 * 8 = 2^64 *)
